@@ -29,6 +29,10 @@ P_waitPOL   == << F, F, O, <<"bundle", 2, 1, "nil">>, O, F, O, O, O, <<"bundle",
 P_height2   == P_lockedA1 \o << <<"bundle", 2, 1, "A">> >>
 \* commit decided (+2/3 precommits for A) before the block is known
 P_commitNoBlock == << F, <<"bundle", 2, 1, "A">> >>
+\* peer 3 has used up its two catch-up rounds with votes that do NOT verify (HeightVoteSet charges a peer for every
+\* untracked round it makes the node create, before the vote is looked at): a third untracked round of that peer -
+\* round 3, which the search offers - must be refused, other peers may still open it
+P_catchupSpent == << F, <<"badvote", 3, 1, 4, "A">>, <<"badvote", 3, 1, 5, "A">> >>
 All == << <<>>, P_prevotedA, P_lockedA1, P_r2lockedA, P_r3lockedA, P_lockedM2, P_r3lockedM, P_validA, P_waitPOL,
-          P_height2, P_commitNoBlock >>
+          P_height2, P_commitNoBlock, P_catchupSpent >>
 ===================================================================================
